@@ -7,6 +7,9 @@ package main
 //   * a function body is enumerated into its control-flow PATHS (if / else / switch / early return all give the same set),
 //   * calls to helpers of the same package are INLINED (so helper boundaries do not matter) unless the helper returns an
 //     `error` (then it is an opaque primitive named by its RESULT TYPES) or is a pure constructor-style helper,
+//     a pure helper is still executed in place when its arguments DECIDE it to a constant (`funcOrNil(nil)` is `lua.LNil`)
+//     or when it only DISPATCHES on string / number literals (the selecting half of a field table) — see `decided`,
+//   * `*&x` is x (a place selected first and written afterwards), the zero value of a pointer-like type is nil,
 //   * local variables are replaced by their DEFINITIONS (`S` = the state obtained from the pool, `S.Get(-1)`, …),
 //     parameters by their position ($0, $1, $recv), unexported fields of the receiver by their declared type,
 //     unexported package functions by `fn-><result types>`, fresh error values by `<error>` (texts do not matter),
@@ -580,6 +583,17 @@ func luaNonNil(v *luaV) bool {
 	return v.op == "err" || v.op == "addr" || v.op == "comp" || v.op == "func" || v.op == "fnref" || (v.op == "call" && (v.s == "make" || v.s == "new"))
 }
 
+func luaZeroIsNil(v *luaV) bool {
+	if v.op == "lit" && v.s == "nil" {
+		return true
+	}
+	if v.op != "zero" {
+		return false
+	}
+	t := v.s
+	return strings.HasPrefix(t, "*") || strings.HasPrefix(t, "[]") || strings.HasPrefix(t, "map[") || strings.HasPrefix(t, "chan ") || t == "func"
+}
+
 // fold: 1 = certainly true, 0 = certainly false, -1 = symbolic
 func luaFold(a luaAtom) int {
 	b2i := func(b bool) int {
@@ -602,6 +616,13 @@ func luaFold(a luaAtom) int {
 		}
 		if x.op == "lit" && x.s == "nil" && luaNonNil(y) {
 			return b2i(v.s == "!=")
+		}
+		// the zero value of a pointer / slice / map / func / chan type IS nil (`var f *T` never assigned)
+		if y.op == "lit" && y.s == "nil" && luaZeroIsNil(x) {
+			return b2i(v.s == "==")
+		}
+		if x.op == "lit" && x.s == "nil" && luaZeroIsNil(y) {
+			return b2i(v.s == "==")
 		}
 	}
 	return -1
@@ -966,7 +987,12 @@ func (ev *luaEval) expr(p *luaPath, e ast.Expr) []luaRes {
 	case *ast.StarExpr:
 		out := []luaRes{}
 		for _, r := range ev.expr(p, v.X) {
-			out = append(out, luaRes{r.p, []*luaV{{op: "deref", k: []*luaV{luaFirst(r.v)}}}})
+			x := luaFirst(r.v)
+			if x.op == "addr" { // *&x is x (a place selected first and written afterwards)
+				out = append(out, luaRes{r.p, []*luaV{x.k[0]}})
+				continue
+			}
+			out = append(out, luaRes{r.p, []*luaV{{op: "deref", k: []*luaV{x}}}})
 		}
 		return out
 	case *ast.UnaryExpr:
@@ -1204,6 +1230,12 @@ func (ev *luaEval) pkgCall(p *luaPath, g *ast.FuncDecl, recv *luaV, argExprs []a
 			out = append(out, ev.inline(r.p, g, recv, r.v)...)
 			continue
 		}
+		if !deferred {
+			if res, ok := ev.decided(r.p, g, recv, r.v); ok {
+				out = append(out, res...)
+				continue
+			}
+		}
 		args := r.v
 		if recv != nil {
 			args = append([]*luaV{recv}, args...)
@@ -1239,6 +1271,75 @@ func (ev *luaEval) pkgCall(p *luaPath, g *ast.FuncDecl, recv *luaV, argExprs []a
 		out = append(out, luaRes{r.p, vals})
 	}
 	return out
+}
+
+// decided: a helper that is otherwise kept as an opaque pure call (`fn->T(args)`) is executed in place in two cases.
+//
+//	(1) its arguments DECIDE it: exactly one path survives, it needed no new condition and did nothing that is kept, and
+//	    every result is a constant (nil / a literal / a name of another package).  `funcOrNil(nil)` is `lua.LNil` by
+//	    funcOrNil's own definition, so "select the field, then push funcOrNil(selected)" with nothing selected pushes what
+//	    a `default: Push(LNil)` arm pushes.
+//	(2) it only DISPATCHES on constants: it does nothing that is kept and every condition it adds compares a value with a
+//	    string / number literal — the selecting half of a field table moved into a helper (`afterField(after, key)`); its
+//	    cases become the caller's cases, exactly as if the switch stood there.
+//
+// Anything else (a nil / type test on the argument as in funcOrNil(x) or the unwrap functions, an effect, a wrapper that
+// just forwards its arguments) leaves the call opaque.
+func (ev *luaEval) decided(p *luaPath, g *ast.FuncDecl, recv *luaV, args []*luaV) ([]luaRes, bool) {
+	if g == nil || g.Body == nil || ev.noInline || ev.inDefer || len(ev.stack) > 5 || ev.pk.returnsError(g) || !ev.pk.benign(g, 0) {
+		return nil, false
+	}
+	for _, s := range ev.stack {
+		if s == g {
+			return nil, false
+		}
+	}
+	nres := len(ev.pk.results(g))
+	if nres == 0 {
+		return nil, false
+	}
+	if g.Type.Params != nil {
+		for _, fl := range g.Type.Params.List {
+			if _, variadic := fl.Type.(*ast.Ellipsis); variadic {
+				return nil, false
+			}
+		}
+	}
+	q := p.clone()
+	na, ne := len(q.atoms), len(q.effs)
+	res := ev.inline(q, g, recv, args)
+	if len(res) == 0 || len(res) > 64 {
+		return nil, false
+	}
+	newAtoms := 0
+	for _, o := range res {
+		if o.p.done != "" || len(o.p.effs) != ne || len(o.v) != nres || len(o.p.atoms) < na {
+			return nil, false
+		}
+		for _, v := range o.v {
+			if v == nil {
+				return nil, false
+			}
+		}
+		for _, a := range o.p.atoms[na:] {
+			v := a.v
+			if a.neg || v.op != "bin" || (v.s != "==" && v.s != "!=") || v.k[1].op != "lit" || v.k[1].s == "nil" || v.k[1].s == "true" || v.k[1].s == "false" {
+				return nil, false
+			}
+			newAtoms++
+		}
+	}
+	if newAtoms == 0 {
+		if len(res) != 1 {
+			return nil, false
+		}
+		for _, v := range res[0].v {
+			if !(v.op == "lit" || v.op == "pkg") {
+				return nil, false
+			}
+		}
+	}
+	return res, true
 }
 
 func (ev *luaEval) bindParams(q *luaPath, g *ast.FuncDecl, recv *luaV, args []*luaV) []string {
